@@ -2,8 +2,8 @@
    Print Assumptions.  bs ranges over ALL bit lists, p/k/i over all naturals. *)
 From Coq Require Import List Arith NArith ZArith Lia Bool.
 From ZV.C04 Require Import Spec Model ModelIL ProofsRank ProofsFew ProofsSelect ProofsSelect0 ProofsIL.
-From ZV.C04 Require Import ModelGen ModelILSel ModelSE256 ModelSimple ModelFew2 ModelBV ModelRun.
-From ZV.C04 Require Import ProofsGen ProofsILSel ProofsSE256 ProofsSE256Sel0 ProofsSimple ProofsFew2 ProofsBV.
+From ZV.C04 Require Import ModelGen ModelILSel ModelSE256 ModelSimple ModelFew2 ModelBV ModelTrivial ModelMixed ModelRun.
+From ZV.C04 Require Import ProofsGen ProofsILSel ProofsSE256 ProofsSE256Sel0 ProofsSimple ProofsFew2 ProofsBV ProofsTrivial ProofsMixed.
 Import ListNotations.
 
 (* --- spec layer: the definition itself has the laws the property names --- *)
@@ -409,3 +409,125 @@ Example bitvector_nonvacuous :
   snd (bv_run bv_new ops) = [0; 0; 0; 1; 63; 0; 0; 11; 120; 11; 131; 1; (-1)]%Z /\
   blocks (fst (bv_run bv_new ops)) = [1023; 0; 4]%N.
 Proof. vm_compute. split; reflexivity. Qed.
+
+(* --- RankSelectMixedIL256 as written (mixed_il_256.rs), one dimension: the other dimension only determines how many
+       (all-zero) lines follow the data.  select0 is not offered by the code. --- *)
+Theorem mixed_rank1_correct : forall bs other p,
+  p <= length bs -> mx_rank1 (mx_build bs other) p = Some (rank1 bs p).
+Proof. exact mx_rank1_correct_proof. Qed.
+Check mixed_rank1_correct : forall bs other p,
+  p <= length bs -> mx_rank1 (mx_build bs other) p = Some (rank1 bs p).
+Print Assumptions mixed_rank1_correct.
+
+Theorem mixed_rank0_correct : forall bs other p,
+  p <= length bs -> mx_rank0 (mx_build bs other) p = Some (rank0 bs p).
+Proof. exact mx_rank0_correct_proof. Qed.
+Check mixed_rank0_correct : forall bs other p,
+  p <= length bs -> mx_rank0 (mx_build bs other) p = Some (rank0 bs p).
+Print Assumptions mixed_rank0_correct.
+
+Theorem mixed_rank1_refuses_past_end : forall bs other p, length bs < p -> mx_rank1 (mx_build bs other) p = None.
+Proof. exact mx_rank1_refuses_proof. Qed.
+Check mixed_rank1_refuses_past_end : forall bs other p, length bs < p -> mx_rank1 (mx_build bs other) p = None.
+Print Assumptions mixed_rank1_refuses_past_end.
+
+Theorem mixed_get_correct : forall bs other i,
+  mx_get (mx_build bs other) i = if length bs <=? i then None else Some (nth i bs false).
+Proof. exact mx_get_correct_proof. Qed.
+Check mixed_get_correct : forall bs other i,
+  mx_get (mx_build bs other) i = if length bs <=? i then None else Some (nth i bs false).
+Print Assumptions mixed_get_correct.
+
+Theorem mixed_count_ones : forall bs other,
+  mx_max_rank1 (mx_build bs other) = count1 bs /\ mx_size (mx_build bs other) = length bs.
+Proof. exact mx_count_ones_proof. Qed.
+Check mixed_count_ones : forall bs other,
+  mx_max_rank1 (mx_build bs other) = count1 bs /\ mx_size (mx_build bs other) = length bs.
+Print Assumptions mixed_count_ones.
+
+Theorem mixed_select1_correct : forall bs other k, mx_select1 (mx_build bs other) k = select1 bs k.
+Proof. exact mx_select1_correct_proof. Qed.
+Check mixed_select1_correct : forall bs other k, mx_select1 (mx_build bs other) k = select1 bs k.
+Print Assumptions mixed_select1_correct.
+
+Example mixed_nonvacuous :
+  let bs := repeat true 300 ++ repeat false 212 ++ repeat true 88 in
+  mx_rank1 (mx_build bs 1000) 600 = Some 388 /\ mx_rank1 (mx_build bs 0) 512 = Some 300 /\
+  mx_select1 (mx_build bs 1000) 300 = Some 512 /\ mx_select1 (mx_build bs 77) 387 = Some 599 /\
+  mx_select1 (mx_build bs 1000) 388 = None /\ length (mx_ls (mx_build bs 1000)) = 4.
+Proof. vm_compute. repeat split; reflexivity. Qed.
+
+(* --- trivial.rs: RankSelectAllZero / RankSelectAllOne on the all-zero / all-one list of the stored size --- *)
+Theorem allzero_correct : forall n p k i,
+  az_rank1 n p = (if n <? p then None else Some (rank1 (repeat false n) p)) /\
+  az_rank0 n p = (if n <? p then None else Some (rank0 (repeat false n) p)) /\
+  az_select1 n k = select1 (repeat false n) k /\
+  az_select0 n k = select0 (repeat false n) k /\
+  az_get n i = (if n <=? i then None else Some (nth i (repeat false n) false)) /\
+  az_count_ones n = count1 (repeat false n).
+Proof. exact allzero_correct_proof. Qed.
+Check allzero_correct : forall n p k i,
+  az_rank1 n p = (if n <? p then None else Some (rank1 (repeat false n) p)) /\
+  az_rank0 n p = (if n <? p then None else Some (rank0 (repeat false n) p)) /\
+  az_select1 n k = select1 (repeat false n) k /\
+  az_select0 n k = select0 (repeat false n) k /\
+  az_get n i = (if n <=? i then None else Some (nth i (repeat false n) false)) /\
+  az_count_ones n = count1 (repeat false n).
+Print Assumptions allzero_correct.
+
+Theorem allone_correct : forall n p k i,
+  ao_rank1 n p = (if n <? p then None else Some (rank1 (repeat true n) p)) /\
+  ao_rank0 n p = (if n <? p then None else Some (rank0 (repeat true n) p)) /\
+  ao_select1 n k = select1 (repeat true n) k /\
+  ao_select0 n k = select0 (repeat true n) k /\
+  ao_get n i = (if n <=? i then None else Some (nth i (repeat true n) false)) /\
+  ao_count_ones n = count1 (repeat true n).
+Proof. exact allone_correct_proof. Qed.
+Check allone_correct : forall n p k i,
+  ao_rank1 n p = (if n <? p then None else Some (rank1 (repeat true n) p)) /\
+  ao_rank0 n p = (if n <? p then None else Some (rank0 (repeat true n) p)) /\
+  ao_select1 n k = select1 (repeat true n) k /\
+  ao_select0 n k = select0 (repeat true n) k /\
+  ao_get n i = (if n <=? i then None else Some (nth i (repeat true n) false)) /\
+  ao_count_ones n = count1 (repeat true n).
+Print Assumptions allone_correct.
+
+(* --- adaptive.rs: select_implementation always builds RankSelectInterleaved256::new and every method forwards --- *)
+Theorem adaptive_correct : forall bs p k i,
+  adaptive_rank1 (adaptive_build bs) p = rank1 bs (Nat.min p (length bs)) /\
+  adaptive_rank0 (adaptive_build bs) p = rank0 bs (Nat.min p (length bs)) /\
+  adaptive_select1 (adaptive_build bs) k = select1 bs k /\
+  adaptive_select0 (adaptive_build bs) k = select0 bs k /\
+  adaptive_get (adaptive_build bs) i = (if length bs <=? i then None else Some (nth i bs false)) /\
+  adaptive_count_ones (adaptive_build bs) = count1 bs /\ adaptive_len (adaptive_build bs) = length bs.
+Proof. exact adaptive_correct_proof. Qed.
+Check adaptive_correct : forall bs p k i,
+  adaptive_rank1 (adaptive_build bs) p = rank1 bs (Nat.min p (length bs)) /\
+  adaptive_rank0 (adaptive_build bs) p = rank0 bs (Nat.min p (length bs)) /\
+  adaptive_select1 (adaptive_build bs) k = select1 bs k /\
+  adaptive_select0 (adaptive_build bs) k = select0 bs k /\
+  adaptive_get (adaptive_build bs) i = (if length bs <=? i then None else Some (nth i bs false)) /\
+  adaptive_count_ones (adaptive_build bs) = count1 bs /\ adaptive_len (adaptive_build bs) = length bs.
+Print Assumptions adaptive_correct.
+
+(* --- multidim_simd.rs MultiDimRankSelect / AdaptiveMultiDimensional: one interleaved-256 per dimension;
+       bulk_rank_multidim = rank1 per dimension (0 past the end), bulk_select_multidim = select1 per dimension --- *)
+Theorem multidim_correct : forall bvs m positions ranks,
+  md_build bvs = Some m ->
+  md_bulk_rank m positions = md_rank_spec (md_total_bits m) bvs positions /\
+  md_bulk_select m ranks = md_select_spec bvs ranks /\
+  (forall b, In b bvs -> length b = md_total_bits m).
+Proof. exact multidim_correct_proof. Qed.
+Check multidim_correct : forall bvs m positions ranks,
+  md_build bvs = Some m ->
+  md_bulk_rank m positions = md_rank_spec (md_total_bits m) bvs positions /\
+  md_bulk_select m ranks = md_select_spec bvs ranks /\
+  (forall b, In b bvs -> length b = md_total_bits m).
+Print Assumptions multidim_correct.
+
+Example multidim_nonvacuous :
+  let bs := repeat true 70 ++ repeat false 200 in
+  exists m, md_build [bs; map negb bs] = Some m /\
+    md_bulk_rank m [100; 100] = [70; 30] /\ md_bulk_rank m [271; 270] = [0; 200] /\
+    md_bulk_select m [69; 0] = Some [69; 70] /\ md_bulk_select m [70; 0] = None.
+Proof. eexists. split; [reflexivity|]. vm_compute. repeat split; reflexivity. Qed.
